@@ -37,8 +37,14 @@ def render_if(inp):
     for j, c in enumerate(inp["conds"], 1):
         kw = "@if" if j == 1 else "@else if"
         parts.append(f"{kw} {CONDS[c]} {{ {probe(ctx, [('v', str(j))])} }}")
-    if inp["else"]:
-        parts.append(f"@else {{ {probe(ctx, [('v', str(len(inp['conds']) + 1))])} }}")
+    n = len(inp["conds"])
+    P = lambda j: probe(ctx, [("v", str(j))])
+    if inp["else"] == 1:
+        parts.append(f"@else {{ {P(n + 1)} }}")
+    elif inp["else"] == 2:       # an @else block that starts with an @if and goes on
+        parts.append(f"@else {{ @if {CONDS[inp['ncond']]} {{ {P(n + 2)} }} {P(n + 1)} }}")
+    elif inp["else"] == 3:
+        parts.append(f"@else {{ @if {CONDS[inp['ncond']]} {{ {P(n + 2)} }} @else {{ {P(n + 3)} }} {P(n + 1)} }}")
     return wrap(ctx, " ".join(parts))
 
 
@@ -145,7 +151,7 @@ class C17(VectorEngine):
     trace = ("Trace_Flow", "Trace_Flow.cfg")
     spec_op = "Flow!Expect"
     rule = ("Inputs generated by MC_Flow.tla: @if/@else if/@else chains over all truth assignments of 11 value kinds (<=3 conditions; 4 over "
-            "{true,false,null,0}), @for ranges with a, b in [-6,6] (and around 1in/1pc in px) x through/to x all pairs of 10 units incl. "
+            "{true,false,null,0}; @else blocks that start with a nested @if / @if-@else and continue with further statements), @for ranges with a, b in [-6,6] (and around 1in/1pc in px) x through/to x all pairs of 10 units incl. "
             "compatible conversions and incompatible pairs, @each over space/comma/bracketed lists, maps, single values and () with <=3 items "
             "(atoms, null, nested lists of 2-3) destructured into 1..3 variables, @while over condition lists <=4; each rendered at top level, "
             "in a mixin body and in a function body (eval_body). non-trivial = every vector with a defined expectation; distinct = distinct input. "
@@ -154,9 +160,9 @@ class C17(VectorEngine):
                    "@each observables are flattened token sequences of inspect() output; atoms are named by position",
                    "@while conditions are read from a list with nth() and a !global counter"]
     mc_runs = {
-        "quick": [("MC_Flow", f"MC_Flow_C17_{c}.cfg", {"workers": 4}) for c in ("if", "if4", "while", "for", "for2", "for3", "each")],
+        "quick": [("MC_Flow", f"MC_Flow_C17_{c}.cfg", {"workers": 4}) for c in ("if", "if4", "ifn", "while", "for", "for2", "for3", "each")],
         "thorough": [("MC_Flow", f"MC_Flow_C17_{c}.cfg", {"workers": 4, "timeout": 1800})
-                     for c in ("if", "if4", "while", "for", "for2", "for3", "fort", "each", "eacht")],
+                     for c in ("if", "if4", "ifn", "while", "for", "for2", "for3", "fort", "each", "eacht")],
     }
     random_n = {"quick": 1500, "thorough": 20000}
 
@@ -246,8 +252,10 @@ class C17(VectorEngine):
             k = rng.choice(["if", "for", "for", "each", "each", "while"])
             c = rng.choice(["top", "mixin", "fn"])
             if k == "if":
-                out.append({"kind": "if", "ctx": c, "conds": [rng.choice(toks) if rng.random() < 0.5 else rng.choice(["false", "null"])
-                                                               for _ in range(rng.randint(1, 6))], "else": rng.randint(0, 1)})
+                el = rng.randint(0, 3)
+                out.append({"kind": "if", "ctx": c, "conds": [rng.choice(toks) if rng.random() < 0.4 else rng.choice(["false", "null"])
+                                                               for _ in range(rng.randint(1, 6))], "else": el,
+                            "ncond": rng.choice(toks) if el >= 2 else "-"})
             elif k == "while":
                 m = rng.randint(0, 5)
                 conds = [rng.choice([t for t in toks if t not in ("false", "null")]) for _ in range(m)] + [rng.choice(["false", "null"])]
